@@ -8,6 +8,7 @@ Definition writable_globals : list (string * string) :=
    ("format", "_farray");
    ("load", "libxmp_verif_pregate");
    ("loaders_vorbis", "crc_table");
+   ("mixer", "libxmp_verif_mixer_iters");
    ("mixer", "libxmp_verif_wraparound.ld");
    ("mixer", "libxmp_verif_wraplog");
    ("scan", "libxmp_verif_scanlog")].
